@@ -190,6 +190,9 @@ inline Outcome run_perm_case(const PermCase& c) {
     if (three) {
         o.classes.push_back("tuple_with_3+_applicable");
     }
+    if (int(s.recs.size()) > s.n) {
+        o.classes.push_back("several_records_per_class");
+    }
     if (has_nontransitive(s)) {
         o.classes.push_back("nontransitive_more_specific");
     }
@@ -208,6 +211,13 @@ Property prop_C06(const std::string& variant) {
             o.max_classes = 3;
             o.max_methods = 2;
             o.max_defs = 3;
+            o.lattice_bias = true;
+        }
+        // one case in three presents the graph through split, partial or
+        // redundant records (C08's legal presentations): the order in which
+        // the records of one class are met must not matter either
+        if (!c.exhaustive && ch.chance(1, 3)) {
+            o.canonical_presentation = false;
             o.lattice_bias = true;
         }
         c.base.spec = gen_spec(ch, o, size);
